@@ -445,6 +445,7 @@ def execute(spec, world):
                     raise
                 outcome, exc = "raised", e
         skip_q = _solver_skip(world)
+        used_solver = len(world.solver.attempts) > 0
         world.fs.open_handles.clear()
         log.add("step", si, qname, outcome, type(exc).__name__ if exc else None,
                 [list(f) for f in world.fs.plan.fired])
@@ -500,7 +501,9 @@ def execute(spec, world):
                         warnings.simplefilter("ignore")
                         value2 = fn2()
                 skip_r = _solver_skip(world)
-                solverish = "minimal_bounding" in st["name"]
+                # solver-based = the solver seam saw a call (also through deprecated aliases
+                # such as bounding_sphere, or to_json([... "minimal_bounding_sphere" ...]))
+                solverish = used_solver or len(world.solver.attempts) > 0
                 if not (solverish and (skip_q or skip_r)):
                     ctx = observe.Ctx(L, 1e-6 if solverish else 1e-9, 1e-12)
                     ctx.nbase = 0
